@@ -37,7 +37,7 @@ type history struct {
 }
 
 var poolOps = []string{
-	"small", "small", "small_ratio", "crs", "add", "add", "sub", "double", "neg", "mul", "mul", "msm", "commit", "precomp_custom", "redecode", "unc_trusted",
+	"small", "small", "small_ratio", "y_near_half", "crs", "add", "add", "sub", "double", "neg", "mul", "mul", "msm", "commit", "precomp_custom", "redecode", "unc_trusted",
 	"normalize", "batchnorm", "batchnorm_all", "rescale", "flip", "torsion", "pqq", "dist", "self_sub", "set", "setidentity", "mul_edge", "neg_pair",
 }
 
@@ -65,6 +65,9 @@ func genHistory(t *rapid.T, maxActs int) history {
 			a.N = rapid.IntRange(0, 40).Draw(t, "k")
 		case "small_ratio":
 			a.N = rapid.IntRange(0, 899).Draw(t, "ratio")
+		case "y_near_half":
+			a.N = rapid.IntRange(0, 100000).Draw(t, "k")
+			a.Seed = rapid.Uint64Range(0, 7).Draw(t, "variant")
 		case "crs":
 			a.N = rapid.IntRange(0, 255).Draw(t, "i")
 		case "add", "sub", "pqq":
@@ -262,6 +265,29 @@ func runPool(h history, rec *hx.Rec) ([]*banderwagon.Element, error) {
 					}
 				} else {
 					*e = banderwagon.Generator
+				}
+				err = add(a.Op, e)
+			case "y_near_half": // a subgroup element whose affine y is one of the values nearest to p/2 (its negative shares the upper limbs)
+				var xv *big.Int
+				for k := 0; k < 64; k++ {
+					cand := c17Case{Mode: "point", Kind: "y_near_half", E: uint32(a.N + 1000*k), Seed: a.Seed % 4}.value()
+					if ref.SubgroupOK(cand) {
+						xv = cand
+						break
+					}
+				}
+				if xv == nil {
+					*e = banderwagon.Generator
+				} else {
+					y := ref.YFromX(xv)
+					if a.Seed >= 4 {
+						y = new(big.Int).Sub(ref.P, y)
+					}
+					raw := append(be32any(xv), be32any(y)...)
+					if derr := e.SetBytesUncompressed(raw, true); derr != nil {
+						err = fmt.Errorf("trusted load of a valid point failed: %v", derr)
+						return
+					}
 				}
 				err = add(a.Op, e)
 			case "crs":
